@@ -98,6 +98,11 @@ def abbreviate(e):
 
 def simplify(sc):
     """Knob simplifications tried after event minimisation (each yielded candidate is tested)."""
+    # 0. UTC process
+    if sc.get("tz"):
+        c = json.loads(json.dumps(sc))
+        c["tz"] = None
+        yield c
     # 1. no clock skew
     if sc.get("skew") and any(sc["skew"].values()):
         c = json.loads(json.dumps(sc))
